@@ -98,7 +98,18 @@ class World:
         return read_clock(self.root)
 
     def next_tick(self):
+        # hold(n): the next n edits share one (fresh) tick - several edits
+        # within the granularity of the file system's clock
+        held = getattr(self, '_held', None)
+        if held and held[0] > 0:
+            held[0] -= 1
+            if held[1] is None:
+                held[1] = next_tick(self.root)
+            return held[1]
         return next_tick(self.root)
+
+    def hold(self, n):
+        self._held = [n, None]
 
     def advance(self, n):
         write_clock(self.root, self.tick + n)
